@@ -45,7 +45,8 @@ type routeCfg struct {
 	BW              string            `json:"bw,omitempty"`
 	BWMode          string            `json:"bw_mode,omitempty"`
 	Group           string            `json:"group,omitempty"`
-	SlowBW          bool              `json:"slow_bw,omitempty"` // limit below the copy-buffer size: only used by the small-body cases
+	CatchAll        bool              `json:"catch_all,omitempty"` // customDomains ["*"]: also selected for a TLS ClientHello without server name
+	SlowBW          bool              `json:"slow_bw,omitempty"`   // limit below the copy-buffer size: only used by the small-body cases
 	BackendPort     int               `json:"backend_port"`
 	Backends        []int             `json:"backends"` // ids of the backends that may legitimately answer
 }
@@ -242,6 +243,16 @@ func buildTopology(nCfg int) error {
 			rc.Srv = i % 2
 			rc.Cli = rc.Srv*nCli + rng.Intn(nCli)
 			rc.PlugRewriteHost, rc.PlugReqSet = "", nil
+		}
+		// one catch-all https route per server (the name "*" is exclusive on a vhost port): https2https on the first,
+		// https2http on the second server; no encryption / compression (keep-alive must work on them)
+		if i == 16 || i == 17 {
+			rc.Kind = []string{"https2https", "https2http"}[i-16]
+			rc.Srv = i - 16
+			rc.Cli = rc.Srv*nCli + rng.Intn(nCli)
+			rc.CatchAll, rc.Domain = true, "*"
+			rc.Enc, rc.Comp = false, false
+			rc.RewriteHost, rc.ReqSet, rc.RespSet = "", nil, nil
 		}
 		if rc.Dead {
 			// hold the port without listening: connections are refused and no other process can take it
